@@ -79,6 +79,9 @@ def case(draw, tier):
         # header from the cache; when the idle one is started it re-sorts and replaces the cache under the third one
         [["new"], ["new"], ["exhaust", 1, 0], ["new"], ["adv", 1, 1]],
         [["new"], ["new"], ["exhaust", 1, 0], ["new"], ["adv", 1, 1], ["adv", 0, 2], ["adv", 1, 4]],
+        # a leader and a lagging iterator over one spill file: the lagger reads behind the end, then the leader appends
+        [["new"], ["new"], ["adv", 0, 3], ["adv", 1, 2], ["adv", 0, 2], ["adv", 1, 1], ["adv", 0, 1]],
+        [["new"], ["adv", 0, 3], ["new"], ["adv", 1, 1], ["adv", 0, 1], ["adv", 1, 1], ["adv", 0, 1], ["dropview", 0, 0]],
     ]))
     steps = [list(x) for x in steps]
     for _ in range(nsteps):
